@@ -20,7 +20,7 @@ func (c06) NumCases(tier string) int {
 	if tier == "thorough" {
 		return 1_500_000
 	}
-	return 12_000
+	return 15_000
 }
 
 func (c06) Describe() CheckInfo {
